@@ -794,6 +794,7 @@ package template
 //@   option allocates
 //@   option modifies @ANALYSISMAPS @DERIVEDTREES
 //@   requires !isnil(n)
+//@   defines identical(r, namedlike(r, "escbranch", c, n, nodeName))
 //@   requires escmaps: !isnil(e.output) && !isnil(e.derived) && !isnil(e.called) && !isnil(e.actionNodeEdits) && !isnil(e.templateNodeEdits) && !isnil(e.textNodeEdits)
 //@   ensures reentry: nodeName == "range" && r.state != stateError ==> nudgest(namedlike(c, "esclist", c, n.List).state) == nudgest(namedlike(c, "esclist", namedlike(c, "esclist", c, n.List), n.List).state) && nudgedl(namedlike(c, "esclist", c, n.List).state, namedlike(c, "esclist", c, n.List).delim) == nudgedl(namedlike(c, "esclist", namedlike(c, "esclist", c, n.List), n.List).state, namedlike(c, "esclist", namedlike(c, "esclist", c, n.List), n.List).delim)
 //@   ensures branches: r.state != stateError ==> nudgest(namedlike(c, "esclist", c, n.List).state) == nudgest(namedlike(c, "esclist", c, n.ElseList).state) && nudgedl(namedlike(c, "esclist", c, n.List).state, namedlike(c, "esclist", c, n.List).delim) == nudgedl(namedlike(c, "esclist", c, n.ElseList).state, namedlike(c, "esclist", c, n.ElseList).delim)
@@ -869,3 +870,6 @@ package template
 //@   requires wf: c.state <= stateError && c.delim <= delimSpaceOrTagEnd && (c.delim != delimNone ==> c.state == stateAttr) && (c.state == stateText ==> !isspecial(c.element.name))
 //@   requires actionnodes: forallref(p, !isnil(p) ==> !isnil(asref(p, "parse_ActionNode").Pipe) && forall(k, 0, len(asref(p, "parse_ActionNode").Pipe.Cmds), !isnil(at(asref(p, "parse_ActionNode").Pipe.Cmds, k)) && len(at(asref(p, "parse_ActionNode").Pipe.Cmds, k).Args) > 0))
 //@   ensures unknownkind: isnil(n) ==> r.state == stateError && !isnil(r.err)
+//@   ensures ranges: dyntypeis(n, "parse_RangeNode") ==> identical(r, namedlike(c, "escbranch", c, asref(n, "parse_RangeNode").BranchNode, "range"))
+//@   ensures ifs: dyntypeis(n, "parse_IfNode") ==> identical(r, namedlike(c, "escbranch", c, asref(n, "parse_IfNode").BranchNode, "if"))
+//@   ensures withs: dyntypeis(n, "parse_WithNode") ==> identical(r, namedlike(c, "escbranch", c, asref(n, "parse_WithNode").BranchNode, "with"))
